@@ -205,8 +205,35 @@ func main() {
 		}
 	}
 	if len(failed) > 0 {
+		// untranslatable functions are left out of the generated file: a theorem that needs one of them then fails to
+		// compile and names it; properties that do not depend on it are unaffected
 		fmt.Fprintf(os.Stderr, "T1: %d function(s) of iohelp.go are outside the pattern set: %s\n", len(failed), strings.Join(failed, ", "))
-		os.Exit(2)
+	}
+	// a function defined from an untranslated one is untranslated as well
+	for changed := true; changed; {
+		changed = false
+		bad := map[string]bool{}
+		for _, f := range failed {
+			bad[strings.Replace(f, ".", "_", 1)] = true
+			bad[f] = true
+		}
+		kept := items[:0]
+		for _, it := range items {
+			drop := false
+			for _, dep := range regexp.MustCompile(`(?:Read|Write)\w+`).FindAllString(it.rhs, -1) {
+				if bad[dep] {
+					drop = true
+				}
+			}
+			if drop {
+				failed = append(failed, it.name)
+				fmt.Fprintf(os.Stderr, "T1: %s dropped: it is defined from an untranslated function\n", it.name)
+				changed = true
+			} else {
+				kept = append(kept, it)
+			}
+		}
+		items = kept
 	}
 	// dependency order
 	known := map[string]int{}
@@ -242,6 +269,9 @@ func main() {
 	var b strings.Builder
 	b.WriteString("(* GENERATED by translator T1 (go/cmd/t1) from iohelp/iohelp.go on every run -- do not edit *)\n")
 	b.WriteString("Require Import Bebop.wire.IoLib.\n\n")
+	if len(failed) > 0 {
+		fmt.Fprintf(&b, "(* NOT TRANSLATED (outside the pattern set): %s *)\n\n", strings.Join(failed, ", "))
+	}
 	typ := map[string]string{"slice": "slice_fn", "stream": "stream_fn", "misc": "misc"}
 	for _, it := range order {
 		fmt.Fprintf(&b, "Definition %s : %s := %s.  (* %s *)\n", it.name, typ[it.kind], it.rhs, it.rule)
